@@ -192,6 +192,17 @@ ASSIGN_TEMPLATES = [
     (["try:", "    a{k} = b{k} = int(x)", "except ValueError as e{k}:", "    b{k} = 0"], "b{k}"),
 ]
 FIX_TEMPLATES += [("unused_variable", b, r) for b, r in ASSIGN_TEMPLATES]
+# the replacement attached to unused_ignore reports (remove the comment line / strip the comment)
+FIX_TEMPLATES += [
+    ("unused_ignore", ["# static analysis: ignore[bad_unpack]", "print(x)"], "x"),
+    ("unused_ignore", ["# static analysis: ignore", "print(x)"], "x"),
+    ("unused_ignore", ["print(x)  # static analysis: ignore[bad_unpack]"], "x"),
+    ("unused_ignore", ["print(x)  # static analysis: ignore"], "x"),
+    ("unused_ignore", ["print(x)  # static analysis: ignore[bad_unpack] because reasons"], "x"),
+    ("unused_ignore", ["print(x)  # static analysis: ignore, see above"], "x"),
+    ("unused_ignore", ["print(x)  # note # static analysis: ignore[bad_unpack]"], "x"),
+]
+UNUSED_FIX_CFG = {"cli_on": ["unused_ignore"], "cli_off": ["bare_ignore"], "top_off": [], "override": None, "module": "pa.pb"}
 
 FIX_CFG = {"cli_on": ["use_fstrings", "missing_f", "too_many_positional_args"], "cli_off": ["unused_ignore", "bare_ignore"],
            "top_off": [], "override": None, "module": "pa.pb"}
@@ -335,7 +346,7 @@ def fix_job(job):
     final_out, final_desc, error = None, None, None
     with contextlib.redirect_stderr(io.StringIO()):
         for _ in range(7):
-            r = lines_impl.run_case(text, dict(FIX_CFG, apply=True))
+            r = lines_impl.run_case(text, dict(UNUSED_FIX_CFG if code == "unused_ignore" else FIX_CFG, apply=True))
             if r["error"]:
                 error = r["error"]
                 break
@@ -644,6 +655,19 @@ def run(tier: str, replay: str | None = None):
                         # guard of the finding: `name = <expression with a call>` — removing the statement is the
                         # intended edit for the unused name, the lost call is the defect
                         fid = "C16-unused-assignment-drops-call"
+                if code == "unused_ignore" and ap and ap["add"] and len(ap["del"]) == 1 and any("parse" in p or "behaviour" in p for p in problems):
+                    # guard of C16-unused-ignore-strip-leaves-text: other text follows the ignore marker inside the comment;
+                    # faithful model: the line with every marker removed (rgx.sub)
+                    import re as _re
+                    rgx = _re.compile(_re.escape(IGNORE) + r"(\[[^\s\]]+\])?")
+                    old_line = text.splitlines()[ap["del"][0] - 1]
+                    m = rgx.search(old_line)
+                    if m and old_line[m.end():].strip() and ap["add"] == [rgx.sub("", old_line) + "\n"]:
+                        fid2 = "C16-unused-ignore-strip-leaves-text"
+                        if fid2 in known:
+                            hist["attributed_" + fid2] += 1
+                            rep.known(fid2, known[fid2]["what"])
+                            continue
                 # faithful model of remove_node: the text is the old one minus exactly the statement's lines
                 predicted = None
                 if facts and facts["exact"]:
